@@ -30,7 +30,7 @@ RULE = (
     "contexts write; distinct = distinct (realisation, operation tuples, interleaving) hashes"
 )
 REQUIRED_OBS = ["realisation:copy_context", "realisation:threads", "realisation:asyncio", "interleavings", "full_readbacks", "payload_snapshots_checked",
-                "spawned_children", "unbound_proxy_reads", "anonymous_locals_checked", "reach:Local.__setattr__", "reach:LocalStack.push", "reach:LocalStack.pop", "reach:Local.__release_local__"]
+                "spawned_children", "unbound_proxy_reads", "named_proxies_on_objects_without_the_attribute", "names_bound_to_falsy_values", "anonymous_locals_checked", "reach:Local.__setattr__", "reach:LocalStack.push", "reach:LocalStack.pop", "reach:Local.__release_local__"]
 ASSUMPTIONS = [
     "the heap is shared as in Python: in-place mutation of a value object through a proxy is visible wherever that object is referenced; only *bindings* are per context",
     "threads realise sibling contexts (a new thread starts with an empty context); parent/child is realised with copy_context and asyncio.create_task",
